@@ -232,6 +232,17 @@ Definition c09_check (t : tree) : tree :=
   L [of_bool (exact_cover_b g m0 cover); of_bool (negb (t_bool (t_nth 3 t)));
      of_bool (isolated_ok_b g m0 cover)].
 
+(* c09_check_cover  (edges m0 cover has_edges_after)  ->  (exact_cover graph_empty)
+   the exact-cover clauses of c09_check alone: no maximal-clique enumeration is needed for them, so this entry also
+   judges covers of graphs far beyond the reach of the brute-force model (Proofs/EeccWireP.v: its first answer is
+   1 exactly when ExactCover holds for the simple graph of the edge list handed over, and its two answers are the
+   first two of c09_check) *)
+Definition c09_check_cover (t : tree) : tree :=
+  let g := norm_graph (t_pairs (t_nth 0 t)) in
+  let m0 := t_nat (t_nth 1 t) in
+  let cover := t_natss (t_nth 2 t) in
+  L [of_bool (exact_cover_b g m0 cover); of_bool (negb (t_bool (t_nth 3 t)))].
+
 (* c09_fl  (k order)  ->  the float score after k additions of 1.0/binom(order,2), as (num den) *)
 Definition c09_fl (t : tree) : tree :=
   of_q (fsum (t_nat (t_nth 0 t)) (fl_inv (binom2 (t_nat (t_nth 1 t))))).
